@@ -217,6 +217,18 @@ def gen_C14(tier, seed):
         out.append(f"{f} {p2(d)} {p2(s)}")
         if r.random() < 0.1:
             out.append(f"approx {p2(d)}")
+    # the same operations on epochs: they act on the elapsed time in the epoch's own scale, before and after its reference
+    re_ = random.Random(seed * 41 + 14)
+    for t in (0, 1, 4, 5, 7):
+        for v in (0, 1, -1, SEC, -SEC, NPD + 5, -NPD - 5, NPC + 7, -NPC - 7, 3 * NPC + 123456789, -3 * NPC - 123456789):
+            for st in (1, 1000, SEC, 60 * SEC, 3600 * SEC, NPD, 7 * NPD, NPC, -SEC, 10 * SEC + 1):
+                e = parts_of(v) + (t,)
+                for f in ("efloor", "eceil", "eround"):
+                    out.append(f"{f} {p3(e)} {p2(parts_of(st))}")
+    for _ in range(budget(tier, 5000, 400000)):
+        e = g.rand_epoch() if hasattr(g, "rand_epoch") else parts_of(re_.randint(-3 * NPC, 3 * NPC)) + (re_.choice([0, 1, 4, 5, 6, 7, 8]),)
+        st = re_.choice([1, 1000, SEC, 60 * SEC, 3600 * SEC, NPD, 7 * NPD, NPC, re_.randint(1, 10**12), -re_.randint(1, 10**12)])
+        out.append(f"{re_.choice(['efloor', 'eceil', 'eround'])} {p3(e)} {p2(parts_of(st))}")
     return out
 
 
@@ -465,6 +477,26 @@ def gen_C20(tier, seed):
         else:
             e = g.rand_epoch()
             out.append(f"to_ns {p3(e)} {g.r.choice([5, 6, 7, 8])}")
+    # day of year: float accessor, construction from (year, day of year), and the round trip
+    rd = random.Random(seed * 37 + 20)
+    for t in INT_SCALES:
+        for y in (1, 4, 100, 400, 1899, 1900, 1972, 2000, 2016, 2023, 2024, 9999):
+            for x in (1.0, 1.5, 2.0, 59.0, 60.0, 60.99999, 365.0, 365.5, 365.999999, 366.0, 366.5):
+                if x < (367 if is_leap(y) else 366):
+                    out.append(f"from_doy {y} {fbits(x)} {t}")
+                    out.append(f"doy_rt {y} {fbits(x)} {t}")
+            for off in (0, 1, NPD - 1, NPD, 59 * NPD, 364 * NPD + NPD - 1, 365 * NPD - 1):
+                v = days_from_civil(y, 1, 1) * NPD + off - REF_NS.get(t, 0)
+                out.append(f"doy {p3(parts_of(v) + (t,))}")
+    for _ in range(budget(tier, 6000, 600000)):
+        y = rd.choice([rd.randint(1, 9999), rd.randint(1890, 2110)]); t = rd.choice(INT_SCALES)
+        k = rd.random()
+        if k < 0.4:
+            v = days_from_civil(y, 1, 1) * NPD + rd.randint(0, (366 if is_leap(y) else 365) * NPD - 1) - REF_NS.get(t, 0)
+            out.append(f"doy {p3(parts_of(v) + (t,))}")
+        else:
+            x = rd.choice([float(rd.randint(1, 365)), rd.uniform(1.0, 366.0 if is_leap(y) else 365.0), rd.randint(1, 365) + rd.randint(0, 86399) / 86400.0])
+            out.append(f"{'from_doy' if k < 0.7 else 'doy_rt'} {y} {fbits(x)} {t}")
     return out
 
 
